@@ -3,8 +3,6 @@ package fixtures
 import (
 	"fmt"
 	"strings"
-
-	"github.com/alecthomas/participle/v2"
 )
 
 // Ported from /repo/_examples/ebnf/main.go: an EBNF parser compatible with Go's exp/ebnf.
@@ -53,7 +51,7 @@ type ebnfEBNF struct {
 	Productions []*ebnfProduction `@@*`
 }
 
-var ebnfParser = participle.MustBuild[ebnfEBNF]()
+var ebnfParser = mustBuild[ebnfEBNF]()
 
 func init() {
 	f := Register("ebnf", ebnfParser, nil,
